@@ -911,3 +911,40 @@ C20_SPACE = dict(
     raises=[("The treatment space is too large for this method", 1)],
 )
 ALL += [C20_COMBINATION_COUNT, C20_SPACE]
+
+# ---- C20: models/main.py predict_viability_avg and retrospective.py calculate_mse (vocabulary: end of Model/Metrics.v) ----
+# A theta is the prediction vector it gives on the screen at hand (`theta_t`), the ThetaHolder the list `per_theta` of them; the
+# fully observed screen of calculate_mse is its observations (`obs_screen`), Screen.size their number.
+C20_PREDICT_AVG = dict(
+    file="src/batchie/models/main.py", func="predict_viability_avg", out="SrcMetrics.v", imports="Model.Metrics", overload=True,
+    name="src_predict_viability_avg", pyparams=["screen", "thetas"], params=[("size", "nat"), ("per_theta", _QM)], returns=_QS,
+    vars={"result": _QS, "theta_index": "Z", "theta": "theta_t", "sub_result": _QS},
+    prims=[
+        ("screen.size", "Z.of_nat size", "Z"),
+        ("np.zeros((__n,), dtype=FloatingPointType)", "np_zeros1 {n}", _QS, {"n": "Z"}),
+        ("thetas.n_thetas", "Z.of_nat (length per_theta)", "Z"),
+        ("thetas.get_theta(__i)", "!list_get per_theta {i}", "theta_t", {"i": "Z"}),       # the i-th theta (C10: get_theta)
+        ("__t.predict_viability(screen)", "{t}", _QS, {"t": "theta_t"}),
+        ("np.isnan(__x)", "np_isnan1 {x}", _BS, {"x": _QS}),
+        ("__m.any()", "np_any1 {m}", "bool", {"m": _BS}),
+        ("__a + __b", "!np_add1 {a} {b}", _QS, {"a": _QS, "b": _QS}),
+        ("__v / __n", "!np_div_int {v} {n}", _QS, {"v": _QS, "n": "Z"}),
+    ],
+    raises=[("NaN predictions were created", 1)],
+)
+C20_CALC_MSE = dict(
+    file="src/batchie/retrospective.py", func="calculate_mse", out="SrcMetrics.v", imports="Model.Metrics", overload=True,
+    name="src_calculate_mse", pyparams=["observed_screen", "thetas"], params=[("per_theta", _QM), ("obs", _QS)], returns=_QC,
+    vars={"preds": _QS},
+    prims=[
+        ("observed_screen", "obs", "obs_screen"), ("thetas", "per_theta", _QM),
+        ("__s.observations", "{s}", _QS, {"s": "obs_screen"}),
+        ("__a - __b", "!np_sub1 {a} {b}", _QS, {"a": _QS, "b": _QS}),
+        ("__x ** 2", "np_square1 {x}", _QS, {"x": _QS}),
+        ("np.mean(__x)", "!np_mean1 {x}", _QC, {"x": _QS}),
+    ],
+    # predict_viability_avg(screen=..., thetas=...) runs the translated function; screen.size = the number of observations
+    kwcalls={"predict_viability_avg": ("!src_predict_viability_avg (length {screen}) {thetas}", _QS,
+                                       [("screen", "obs_screen", None), ("thetas", _QM, None)])},
+)
+ALL += [C20_PREDICT_AVG, C20_CALC_MSE]
